@@ -21,10 +21,12 @@ RULE = (
     "tetrahedra / mixed polygons incl. hexagons with hanging nodes and their extrusion; perturbed up to 0.15 h, "
     "3-d affine maps and rotations; gmsh simplices in the thorough tier; 2-d grids in the xy-plane), constant "
     "Lame parameters mu in [0.5,3], lambda in [0.1,3], a translation vector t (components in [-3,3], also unit "
-    "axis vectors) and a per-face boundary assignment: all Dirichlet, Dirichlet/Neumann mix (pattern) or as few "
-    "Dirichlet faces as possible, with data t on Dirichlet faces and zero traction on Neumann faces. For the "
+    "axis vectors) and a boundary assignment: all Dirichlet, per-face Dirichlet/Neumann mix (pattern), as few "
+    "Dirichlet faces as possible, or component-wise mixed (roller) faces with Dirichlet in some components and "
+    "Neumann in the others; data t_k in Dirichlet components and zero traction in Neumann components. For the "
     "solve to be well posed Neumann faces are turned into Dirichlet faces, by construction, until the Dirichlet "
-    "face centres (globally) and the centres of the non-Neumann faces of every cell span dim-1 dimensions (no "
+    "face centres (globally) and the centres of the held faces of every cell span dim-1 dimensions (only fully "
+    "Dirichlet and interior faces count as holding; no "
     "rigid-body / hinge mode). Oracle: stress t + bound_stress bc = 0 on every face (1e-9 of the summed terms); "
     "(t,0,0) has residual <= 1e-9 of the summed terms in the block system A = div F - accum, b = -div R bc "
     "assembled as in the Tpsa class docstring; the system is solved (sparse LU) and must return displacement t "
@@ -37,21 +39,22 @@ RULE = (
 BUDGET = {"quick": {"cases": 600, "seconds": 40}, "thorough": {"cases": 12000, "seconds": 1000}}
 TECHNIQUE = "property-based testing (Hypothesis): analytic oracle (rigid translation is stress free) incl. solution of the assembled block system"
 LEVEL_TEXT = ("Exploration: hundreds (quick) to thousands (thorough) of generated combinations of grid family, "
-              "geometry variation, Lame parameters, translation vector and per-face Dirichlet/Neumann assignment; "
+              "geometry variation, Lame parameters, translation vector and Dirichlet/Neumann assignment (per face or per component); "
               "both the face stresses and the solution of the fully assembled TPSA system are compared with the "
               "closed-form answer.")
-LEVEL_NOTE = ("Grids have at most ~100 cells (a few hundred in the thorough tier) and planar faces; per-face "
-              "boundary types (no rollers, no Robin); the block system is the one documented in the class "
+LEVEL_NOTE = ("Grids have at most ~100 cells (a few hundred in the thorough tier) and planar faces; Dirichlet / "
+              "Neumann types per face and per component (rollers), no Robin; the block system is the one documented in the class "
               "docstring and the repository's own test, re-implemented in the harness. Finds violations, does "
               "not prove absence.")
 DESIGN_REF = "DESIGN.md section 4, C16"
 ASSUMPTIONS = [
     "2-d grids lie in the xy-plane (Tpsa reads the first two components of the face normals)",
-    "boundary types are assigned per face (all components alike), Dirichlet or Neumann",
+    "boundary types are Dirichlet or Neumann per face and per component (rollers in the coordinate directions; no Robin)",
     "Dirichlet face centres, and the centres of the non-Neumann faces of each cell, span dim-1 dimensions (unique solvability of the two-point system)",
     "Neumann data consistent with the translation: zero traction",
 ]
-REQUIRED = {"solved": 0.95, "dim2": 0.2, "dim3": 0.2, "neumann-present": 0.3, "bc-all_dir": 0.08, "bc-mix": 0.25,
+REQUIRED = {"solved": 0.95, "dim2": 0.2, "dim3": 0.2, "neumann-present": 0.3, "bc-all_dir": 0.05, "bc-mix": 0.12,
+            "bc-roller": 0.1, "roller-present": 0.06,
             "kind-tri": 0.02, "kind-tet": 0.01, "kind-poly": 0.02, "kind-polyx": 0.02, "perturbed": 0.05}
 
 KAPPA_SINGULAR = 1e10
@@ -69,7 +72,7 @@ def _spec(draw, tier):
         t = draw(st.sampled_from([[1.0, 0.0, 0.0], [0.0, 1.0, 0.0], [0.0, 0.0, 1.0], [1.0, -2.0, 3.0]]))
     else:
         t = [draw(_f(-3, 3)) for _ in range(3)]
-    return {"grid": g, "lame": draw(fm.lame_spec()), "bc": draw(fm.vbc_spec(modes=("mix", "mix", "mix", "all_dir", "few_dir"))),
+    return {"grid": g, "lame": draw(fm.lame_spec()), "bc": draw(fm.vbc_spec(modes=("mix", "mix", "roller", "roller", "all_dir", "few_dir"))),
             "t": t}
 
 
@@ -88,13 +91,18 @@ def check(spec):
     g = build_grid(spec["grid"])
     nd, nc = g.dim, g.num_cells
     lame = spec["lame"]
-    bc, is_dir, is_neu = fm.build_vbc(spec["bc"], g, edge_rule=False, min_dir_rank=nd - 1, min_cell_rank=nd - 1)
+    # component-wise types (nd, nf); for the non-roller modes every face has one type in all components
+    bc, is_dir, is_neu = fm.build_vbc_components(spec["bc"], g, edge_rule=False, min_dir_rank=nd - 1,
+                                                 min_cell_rank=nd - 1)
     M = fm.discretize_tpsa(g, lame, bc)
 
     fs = {"c": spec["t"], "G": [[0.0] * 3 for _ in range(3)]}
     t = np.asarray(spec["t"], dtype=float)[:nd]
     u = fm.flat(fm.displacement_at(fs, g.cell_centers, nd))  # t in every cell
-    bv = fm.flat(fm.linear_bc_values(g, fs, lame, is_dir, is_neu))  # t on Dirichlet faces, 0 elsewhere
+    bvals = np.zeros((nd, g.num_faces))
+    for k in range(nd):
+        bvals[k, is_dir[k]] = t[k]  # Dirichlet components: t_k; Neumann components: zero traction
+    bv = fm.flat(bvals)
     stress, bstress = M["stress"], M["bound_stress"]
     got = stress @ u + bstress @ bv
     sc = float((fm.abs_apply(stress, u) + fm.abs_apply(bstress, bv)).max())
@@ -111,7 +119,7 @@ def check(spec):
     scr = float((fm.abs_apply(A, x_exact) + fm.abs_apply(B, bv)).max())
     require_close(res, np.zeros_like(res), "translation-residual", rtol=1e-9, atol=1e-13, scale=scr,
                   what="residual of (t, 0, 0) in the assembled TPSA system")
-    n_neu = int(is_neu.sum())
+    n_neu = int(is_neu.sum())  # number of Neumann degrees of freedom
     solved = True
     try:
         lu = spla.splu(A)
@@ -145,6 +153,9 @@ def check(spec):
     labels.append("solved" if solved else "unsolvable-skipped")
     if n_neu:
         labels.append("neumann-present")
+    n_roller = int(np.sum(np.any(is_dir, axis=0) & np.any(is_neu, axis=0)))
+    if n_roller:
+        labels.append("roller-present")
     plain_cart = spec["grid"]["kind"] == "cart" and not any(l in meta["labels"] for l in ("perturbed", "affine"))
     nontrivial = nc >= 2 and bool(np.any(t != 0)) and (n_neu > 0 or not plain_cart)
     return {"labels": labels, "nontrivial": nontrivial}
